@@ -39,6 +39,8 @@ type Event map[string]interface{}
 type Outcome struct {
 	Kind string // cacheable, uncacheable, error, panic
 	TTL  int
+	// Lifetime the lifetime the answer grants by the property's rule, when it is not simply TTL
+	Lifetime int
 	// extra response headers / full override of Cache-Control
 	Header http.Header
 	Status int
@@ -538,8 +540,10 @@ func (w *World) point(pt string, obj interface{}, args ...interface{}) {
 		st, _ := cache.VerifEntry(obj)
 		w.mu.Lock()
 		if ri := w.reqGid[gid]; ri != nil {
+			// the clock and the lifetime are the true ones (harness clock, what the origin granted),
+			// not the values the code stamped on the entry
 			w.emitLocked(Event{"op": "Publish", "e": w.entID(obj), "d": ri.Disp, "k": ri.Key,
-				"v": respVer(st.Response), "now": st.CreatedAt - w.Base, "ttl": int(st.ExpiredAt - st.CreatedAt)})
+				"v": respVer(st.Response), "now": w.Clock(), "ttl": ri.out.Granted(), "code_ttl": int(st.ExpiredAt - st.CreatedAt)})
 		}
 		w.mu.Unlock()
 	case "hfp.set":
@@ -547,8 +551,9 @@ func (w *World) point(pt string, obj interface{}, args ...interface{}) {
 		now := w.last(gid)
 		w.mu.Lock()
 		if ri := w.reqGid[gid]; ri != nil {
+			// the period is the configured one (<= 0: 300 s), counted from the true clock
 			w.emitLocked(Event{"op": "Hfp", "e": w.entID(obj), "d": ri.Disp, "k": ri.Key,
-				"now": now, "eff": int(st.ExpiredAt - w.Base - now)})
+				"now": w.Clock(), "eff": w.effHfp(ri.Disp), "code_eff": int(st.ExpiredAt - w.Base - now)})
 		}
 		w.mu.Unlock()
 	case "purge.lock":
@@ -610,6 +615,29 @@ func (w *World) Finish(ri *ReqInfo, code int, h http.Header, body []byte) *Resul
 	res := &Result{Rid: ri.Rid}
 	w.finish(ri, code, h, body, res)
 	return res
+}
+
+// Granted the lifetime the origin granted with this answer
+func (o Outcome) Granted() int {
+	if o.Kind == "cacheable" {
+		if o.Lifetime != 0 {
+			return o.Lifetime
+		}
+		return o.TTL
+	}
+	return 0
+}
+
+func (w *World) effHfp(disp string) int {
+	for _, c := range w.dispCfgs {
+		if c.Name == disp {
+			if c.HfpTTL <= 0 {
+				return 300
+			}
+			return c.HfpTTL
+		}
+	}
+	return 300
 }
 
 // SetOutcome scripts the answer of the upstream for the request proc r is running
